@@ -318,7 +318,7 @@ func (cx *c24Ctx) ruleR3() {
 		rg.ord = i + 1
 	}
 	r.Count("mux_registrations", len(cx.regs))
-	r.Require(len(cx.regs) >= 8, "floor: expected at least 8 ServeMux registrations reachable from %s, found %d", ctorName, len(cx.regs))
+	r.Require(len(cx.regs) >= 4, "floor: expected at least 4 ServeMux registrations reachable from %s, found %d", ctorName, len(cx.regs))
 	n := 0
 	for _, f := range cx.fns {
 		for _, c := range kit.Calls(f) {
